@@ -427,7 +427,14 @@ func (p *Packer) Unpack(r io.Reader, dst string) error {
 
 		// Handle symlinks, directories, non-regular files
 		if info.IsSymlink() {
-			if ok, err := p.validSymlink(dst, header.Name, header.Linkname); ok {
+			// Judge the link at the location it is created at. For an entry
+			// name with a leading slash that is not the name itself, which
+			// validSymlink would take for an absolute path.
+			linkName, err := filepath.Rel(dst, info.Path)
+			if err != nil {
+				return &IllegalSlugError{Err: err}
+			}
+			if ok, err := p.validSymlink(dst, linkName, header.Linkname); ok {
 				// Create the symlink.
 				if err = os.Symlink(header.Linkname, info.Path); err != nil {
 					return fmt.Errorf("failed creating symlink (%q -> %q): %w",
